@@ -62,7 +62,7 @@ def corrupt(rng, res):
 
 def run(rep, tier, build, replay=None):
     rng = random.Random(common.seed() * 7919 + 6)
-    n = 6 if tier == 'quick' else 60
+    n = 6 if tier == 'quick' else 400
     cases = []
     for i in range(n):
         u = gendoc.gen_universe(rng, size=2, force={'ext'})
